@@ -21,7 +21,7 @@ use ed25519_dalek::{Signer, SigningKey};
 use endhost_api_models::{SegmentsDiscovery, SegmentsError};
 use http::{HeaderValue, Request, StatusCode};
 use jsonwebtoken::DecodingKey;
-use p_snapctl::reftok::{self, RefConfig, Verdict, Why, b64url_decode, b64url_encode};
+use p_snapctl::reftok::{self, RefConfig, Verdict, b64url_decode, b64url_encode};
 use proptest::{prelude::*, sample::select};
 use scion_sdk_observability::metrics::registry::MetricsRegistry;
 use sciparse::{identifier::isd_asn::IsdAsn, segment::SegmentsPage};
@@ -717,6 +717,8 @@ fn jwks_store() -> Option<Arc<JwksKeyStore>> {
             if std::env::var("C10_NO_JWKS").is_ok() {
                 return None;
             }
+            // what the production binaries do at start-up (reqwest is built without a default provider)
+            scion_sdk_utils::rustls::select_ring_crypto_provider();
             rt().block_on(async {
                 let listener = tokio::net::TcpListener::bind("127.0.0.1:0").await.ok()?;
                 let addr = listener.local_addr().ok()?;
